@@ -4,7 +4,7 @@ import numpy as np
 from vlib import caseio, runner
 
 ID = "C07"
-COQ_TARGETS = ["C07_Extract.vo", "C07_Proofs.vo"]
+COQ_TARGETS = ["C07_Extract.vo", "C07_Proofs.vo", "C07_Regress.vo"]
 EXTRACTED = "C07_model"
 DRIVER = "drv_C07.ml"
 HARNESS = "h_C07.cpp"
@@ -14,8 +14,8 @@ MODEL_NEEDS_IMPL = True      # the mirrored random offset u1 is printed by the h
 REQUIRED_THEOREMS = ["C07_length", "C07_copy", "C07_parents_sorted", "C07_parents_in_range", "C07_uniform_weights",
                      "C07_advance_fuel", "C07_count_bound", "C07_zero_weight_not_selected", "C07_heavy_selected",
                      "C07_u1_zero_boundary_refuted", "C07_neff_formula", "C07_neff_range",
-                     "C07p_partition", "C07p_parents", "C07p_uniform", "C07p_reports_N",
-                     "C07p_parent_is_source_refuted"]
+                     "C07_selection_interval", "C07_lse_spec", "C07_lse_normalises",
+                     "C07p_num_prior", "C07p_partition", "C07p_parents", "C07p_copy", "C07p_uniform", "C07p_reports_N"]
 RULE = ("cases from one seeded stream: N in 1..200, log-weight vectors uniform / one-hot / with exact zeros (-inf) / geometric over 300 "
         "orders of magnitude / dyadic / random / with exact ties, layouts (dl in 1..4, dc in 0..2), 32-bit seeds, 1..3 successive draws on the "
         "same object; prior variant with ratio in {0, 0.25, 0.5, 0.9, random in [0,1)} and a counting or grid initialiser; "
@@ -52,9 +52,6 @@ def weights(rng, N, cls):
         w = 10.0 ** e
     elif cls == "dyadic":
         m = 12
-        ks = np.zeros(N, dtype=int)
-        for _ in range(2 ** m):
-            pass
         cuts = sorted(rng.randrange(0, 2 ** m + 1) for _ in range(N - 1))
         ks = np.diff([0] + cuts + [2 ** m])
         w = ks / float(2 ** m)
@@ -229,8 +226,18 @@ def compare(c, impl, model):
     if len(set(lw.tolist())) < N:
         _stats["tie_cases"] += 1
     if not near:
-        if not same_bits(col(impl, "parents"), col(model, "parents")):
-            diffs.append("parents: impl=%s model=%s" % (col(impl, "parents")[:12], col(model, "parents")[:12]))
+        pi, pm = col(impl, "parents"), col(model, "parents")
+        distinct = len(set(lw.tolist())) == N
+        if pi.shape != pm.shape:
+            diffs.append("parents: %d vs %d entries" % (pi.size, pm.size))
+        elif distinct and not same_bits(pi, pm):
+            diffs.append("parents: impl=%s model=%s" % (pi[:12], pm[:12]))
+        elif not distinct:
+            # std::sort's order among equal weights is free: compare through the weights
+            for j in range(pm.size):
+                a, b = int(pi[j]), int(pm[j])
+                if (a < 0) != (b < 0) or (a >= 0 and (a >= N or lw[a] != lw[b])):
+                    diffs.append("parents: output %d: impl parent %d, model parent %d (weights differ)" % (j, a, b)); break
         src_m = col(model, "src")
         src_i = impl_sources(impl, N)
         if len(src_i) != src_m.size:
@@ -241,9 +248,8 @@ def compare(c, impl, model):
                 if sm < 0:
                     continue     # fresh particle: content is the initialiser's, checked by the oracle
                 si = src_i[j]
-                # through the relation the property states: the same weight was selected (std::sort's tie order is free)
-                if si is None or lw[si] != lw[sm]:
-                    diffs.append("sources: output %d: impl copy of %s, model of %d (weights differ)" % (j, si, sm)); break
+                if si is None or lw[si] != lw[sm] or (distinct and si != sm):
+                    diffs.append("sources: output %d: impl copy of %s, model of %d" % (j, si, sm)); break
     return diffs
 
 
@@ -336,7 +342,7 @@ def oracle(c, impl, model):
     mism = [j for j in range(nr) if src[j] != int(pr[j])]
     if mism:
         j = mism[0]
-        v.append(("C07:prior-parent-not-source", "N=%d ratio=%g: output %d reports parent %d but is a copy of input particle %d (parents index the weight-sorted order)"
+        v.append(("C07:prior-parent-not-source", "N=%d ratio=%g: output %d reports parent %d but is a copy of input particle %d"
                   % (N, ratio, npri + j, int(pr[j]), src[j])))
     # count bound against the renormalised kept weights
     keptw = np.where(lw >= thr, w, 0.0)
@@ -364,5 +370,5 @@ LEVEL_TEXT = ("Proof: the model of Resampling::resample (sequential cumulative s
               "one of N w_i, neff = 1/sum w^2 in [1, N]; the prior variant replaces the floor(ratio N) lightest particles and reports N particles. "
               "The model is tied to the code by running the extracted model and the library on the same generated cases with the mirrored random offset.")
 LEVEL_NOTE = ("Trusted: Coq kernel + the 4 real-number axioms, extraction + float driver, harness and RNG mirror; rounding is not modelled (near-boundary comb points "
-              "are counted and skipped); the tie to the code is sampled. The prior variant reports parents as positions in the weight-sorted order "
-              "(C07p_parent_is_source_refuted), reported by the oracle as C07:prior-parent-not-source.")
+              "are counted and skipped); the tie to the code is sampled. C07_Regress.v keeps the pre-d9796b9 transcription of the prior variant (parents as positions in the "
+              "weight-sorted order) with its refutation; a reintroduction is reported as C07:prior-parent-not-source.")
